@@ -13,6 +13,7 @@ mod packet;
 mod proj;
 mod rdata;
 mod reparse;
+mod resolver;
 mod resp;
 mod replay;
 mod store;
@@ -50,6 +51,7 @@ fn main() {
         "hostile" => hostile::run_hostile(&a),
         "e2e" => e2e::run(&a),
         "resprun" => resp::run(&a),
+        "resolverrun" => resolver::run(&a),
         t => {
             eprintln!("unknown topic {t}");
             std::process::exit(2);
